@@ -6,8 +6,16 @@ import re
 ROOTISH = {"root", "0root", "boot", "0boot"}
 
 
+MAIN_SETS = ["normal.nongui", "normal.gui", "nonleaves", "leaves", "normal", "minimal", "all"]
+
+
 def short(name):
-    return re.sub(r"\.vms\..*", "", name)
+    """test-set invariant short name: a test is the same test whether it was selected as a leaf of a set or parsed as setup"""
+    n = re.sub(r"\.vms\..*", "", name)
+    for m in MAIN_SETS:
+        if n.startswith(m + "."):
+            return n[len(m) + 1:]
+    return n
 
 
 def cls_of(node):
@@ -169,6 +177,7 @@ class Resolver:
         self.vm_variant, self.net = vm_variant, net
         self.cache = {}
         self.states = {}
+        self.instances = {}
 
     def dicts(self, test_restr, vms):
         if self.force_vm:
@@ -229,33 +238,38 @@ class Resolver:
             return [(n, [self.force_vm]) for n, v in self.cache[key]]
         return [(n, v or list(default_vms)) for n, v in self.cache[key]]
 
-    def producers(self, get, obj):
-        """[(producer short name, its vms, state it sets for obj)] among the variants of all..<get>"""
+    def producers(self, get, obj, seen, edges):
+        """[(producer instance name, its vms, state it sets for obj)] among the variants of all..<get>; a producer that is
+        itself cloned is represented by its clones (dependants of a cloned test are cloned consistently)"""
         typ, vm, img = obj
+        okey_ = "%s_%s_%s" % (typ, img, vm) if img else "%s_%s" % (typ, vm)
         out = []
         for name, pvms in self.variant_vms("all.." + get, [vm]):
             if vm not in pvms:
                 continue
-            for pd in self.dicts(name, pvms):
-                if not self.force_vm and set(pd.get("vms", "").split()) != set(pvms):
-                    continue
-                ps = self.view(pd, obj).get("set_state")
+            for inst in self.resolve(name, pvms, seen, edges):
+                ps = self.states.get("%s@%s" % (inst, ".".join(pvms)), {}).get("sets", {}).get(okey_)
                 if ps:
-                    out.append((short(pd["name"]), pvms, ps))
+                    out.append((inst, pvms, ps))
         return out
 
     def resolve(self, test_restr, vms, seen, edges):
+        """resolve the variants a restriction selects (composed for vms); returns the instance names (clones instead of a
+        cloned source)"""
         if self.force_vm:
             vms = [self.force_vm]
+        result = []
         for d in self.dicts(test_restr, vms):
             if not self.force_vm and set(d.get("vms", "").split()) != set(vms):
                 continue
             me = (short(d["name"]), tuple(vms))
-            if me in seen:
+            if me in self.instances:
+                result += self.instances[me]
+                continue
+            if me in seen:      # a cycle in the declarations: leave it to the real parser's own checks
                 continue
             seen.add(me)
-            # states the variant starts from / leaves, per object (for the per-vm state derivation used by C15)
-            info = self.states.setdefault("%s@%s" % (me[0], ".".join(vms)), {"gets": {}, "sets": {}})
+            info = {"gets": {}, "sets": {}}
             for obj in self.objects_of(d):
                 v = self.view(d, obj)
                 typ, vm, img = obj
@@ -273,28 +287,30 @@ class Resolver:
                 typ, vm, img = obj
                 gs = v.get("get_state")
                 okey_ = "%s_%s_%s" % (typ, img, vm) if img else "%s_%s" % (typ, vm)
-                prods = [p for p in self.producers(get, obj) if not gs or gs in ROOTISH or p[2] == gs]
-                for pname, pvms, ps in prods:
-                    self.resolve(pname, pvms, seen, edges)
+                prods = [p for p in self.producers(get, obj, seen, edges) if not gs or gs in ROOTISH or p[2] == gs]
                 if len(prods) > 1:
                     ambiguous.append((okey_, prods))
                 else:
                     fixed += [(okey_, p) for p in prods]
             names = [me[0]]
+            key = "%s@%s" % (me[0], ".".join(vms))
             if ambiguous:
                 # the dependant is cloned once per producer, the clone named after the producer's state
                 assert len(ambiguous) == 1, "products of several multi-producer dependencies are not resolved independently"
                 okey_, prods = ambiguous[0]
                 names = []
-                self.states.pop("%s@%s" % (me[0], ".".join(vms)), None)   # the clone source only stands for its clones
                 for pname, pvms, ps in prods:
                     clone = me[0] + "." + ps
                     names.append(clone)
-                    # a clone starts from its producer's state and leaves branch-specific state names
+                    edges.add(("%s@%s" % (clone, ".".join(vms)), "%s@%s" % (pname, ".".join(pvms)), okey_))
                     cinfo = {"gets": dict(info["gets"]), "sets": {k: x + "." + ps for k, x in info["sets"].items()}}
                     cinfo["gets"][okey_] = ps
                     self.states["%s@%s" % (clone, ".".join(vms))] = cinfo
-                    edges.add(("%s@%s" % (clone, ".".join(vms)), "%s@%s" % (pname, ".".join(pvms)), okey_))
+            else:
+                self.states[key] = info
             for n in names:
                 for okey_, (pname, pvms, ps) in fixed:
                     edges.add(("%s@%s" % (n, ".".join(vms)), "%s@%s" % (pname, ".".join(pvms)), okey_))
+            self.instances[me] = names
+            result += names
+        return result
